@@ -89,11 +89,14 @@ fn problem(k: usize, backward: bool) -> (Prob, f64) {
             p.jac = Some(Arc::new(move |_t, _y| vec![-s, 2.0 * s, 0.0, 0.0, -3.0 * s, s, 0.0, 0.0, -0.5 * s]));
             (p, 2.0)
         }
+        // an interval of 1e-5 straddling 2^30, where the spacing of the doubles doubles (1.2e-7 -> 2.4e-7): RK4's default
+        // step span/100 = 1e-7 is above half an ulp before 2^30 and below it afterwards - progress stops part-way
+        16 => (mk("decay across x = 2^30 on an interval of 1e-5", 1, vec![1.0], Arc::new(|_t, y, d| d[0] = -y[0])), 1e-5),
         5 => (mk("rhs discontinuous in t", 1, vec![1.0], Arc::new(|t, y, d| d[0] = -y[0] + if t > 0.7 { 5.0 } else { 0.0 })), 2.0),
         _ => (mk("rhs discontinuous in y", 1, vec![0.0], Arc::new(|_t, y, d| d[0] = if y[0] > 0.5 { -2.0 } else { 1.0 })), 1.0),
     }
 }
-const NPROB: usize = 16;
+const NPROB: usize = 17;
 /// real eigenvalue of the inverse Radau IIA matrix as written in radau.rs (the resonance scene is
 /// only a scene: if the constant differed the run would simply not meet a singular matrix)
 const RADAU_U1: f64 = 3.637_834_252_744_496;
@@ -126,7 +129,7 @@ fn bases() -> Vec<Base> {
             for backward in [false, true] {
                 for max_steps in [None, Some(40)] {
                     // (a min_step above the given first step would be a contradictory configuration: not for problem 13)
-                    let mins: Vec<Option<f64>> = if crate::run::is_implicit(m) && p != 13 { vec![None, Some(1e-3)] } else { vec![None] };
+                    let mins: Vec<Option<f64>> = if crate::run::is_implicit(m) && p != 13 && p != 16 { vec![None, Some(1e-3)] } else { vec![None] };
                     for min_step in mins {
                         let span = problem(p, backward).1;
                         // automatic initial step; a first step of twice the interval (the solver trims
@@ -135,6 +138,7 @@ fn bases() -> Vec<Base> {
                             7 => vec![Some(1.185), Some(1.185 / 2.0)],
                             8 => vec![Some(1.0), Some(0.5)],
                             13 => vec![Some(1e-8), None],
+                            16 => vec![None],
                             _ => vec![None, Some(2.0 * span)],
                         };
                         let mut fss = fss;
@@ -182,6 +186,11 @@ fn cfg_of(b: &Base) -> (Prob, Cfg) {
     }
     if b.prob == 13 {
         c.x0 = if b.backward { -1e9 } else { 1e9 };
+        c.xend = c.x0 + xend;
+    }
+    if b.prob == 16 {
+        let o = 1073741824.0 - 5e-6;
+        c.x0 = if b.backward { -o } else { o };
         c.xend = c.x0 + xend;
     }
     if b.prob == 10 {
